@@ -33,12 +33,13 @@ open NA.Acl (Range)
 abbrev Name := String
 
 /-- An `access-list NAME extended BODY` line.  `body`: the parsed text after `extended ` with every
-`object-group X` replaced by `object-group $REF` (this is what the Myers diff compares);
-`nolog`: `body` with the log attribute removed by the regular expression of `diffASAACLs`
-(computed by the caller with Go's `regexp`); `refs`: the referenced group names in order. -/
+`object-group X` replaced by `object-group $REF`, split at the `$REF` placeholders (this list is
+what the Myers diff compares); `nolog`: the same for `body` with the log attribute removed by the
+regular expression of `diffASAACLs` (computed by the caller with Go's `regexp`); `refs`: the
+referenced group names in order. -/
 structure Line where
-  body  : String
-  nolog : String
+  body  : List String
+  nolog : List String
   refs  : List Name
   deriving DecidableEq, Repr, Inhabited
 
@@ -76,8 +77,8 @@ structure Scripts where
 
 /-- A printable ACL line with resolved group names. -/
 structure RLine where
-  body  : String
-  nolog : String
+  body  : List String
+  nolog : List String
   names : List Name
   deriving DecidableEq, Repr, Inhabited
 
@@ -103,7 +104,7 @@ def interleave : List String → List Name → String
   | p :: ps, [] => p ++ "$REF" ++ interleave ps []
   | p :: ps, n :: ns => p ++ n ++ interleave ps ns
 
-def substRefs (body : String) (names : List Name) : String := interleave (body.splitOn "$REF") names
+def substRefs (body : List String) (names : List Name) : String := interleave body names
 
 def RLine.text (l : RLine) : String := substRefs l.body l.names
 /-- Key of the move detection: printed text without the log attribute. -/
@@ -132,7 +133,11 @@ def Chg.render : Chg → String
 
 /-! ## Small helpers -/
 
-def sortS (l : List String) : List String := l.mergeSort (fun a b => decide (a ≤ b))
+/-- Insertion sort (ascending, bytewise order for ASCII): `sort.Strings` / `slices.Sorted`. -/
+def insertS (x : String) : List String → List String
+  | [] => [x]
+  | y :: ys => if x ≤ y then x :: y :: ys else y :: insertS x ys
+def sortS (l : List String) : List String := l.foldr insertS []
 
 def lookupD {κ β : Type} [BEq κ] [Inhabited β] (m : List (κ × β)) (n : κ) : β := (m.lookup n).getD default
 
@@ -140,22 +145,23 @@ def slice {α : Type} (l : List α) (lo hi : Nat) : List α := (l.drop lo).take 
 
 def addSet (x : Name) (s : List Name) : List Name := if s.contains x then s else x :: s
 
-def isTagged (n : Name) : Bool := (n.splitOn "-DRC-").length > 1
+def isInfixL : List Char → List Char → Bool
+  | p, [] => p.isEmpty
+  | p, c :: cs => p.isPrefixOf (c :: cs) || isInfixL p cs
+/-- `strings.Contains(name, "-DRC-")`. -/
+def isTagged (n : Name) : Bool := isInfixL "-DRC-".toList n.toList
+
+def drcName (base : Name) (n : Nat) : Name := base ++ "-DRC-" ++ toString n
 
 /-- `generateNamesForTransfer.setName`: first index `n` such that `base-DRC-n` is not a name on
-the device (under that prefix).  Termination: a used name is erased; names for different `n` differ. -/
-def firstFree (base : Name) (dev : List Name) (n : Nat) : Nat :=
-  if h : dev.contains (base ++ "-DRC-" ++ toString n) then
-    firstFree base (dev.erase (base ++ "-DRC-" ++ toString n)) (n + 1)
-  else n
-termination_by dev.length
-decreasing_by
-  simp only [List.contains_eq_mem, decide_eq_true_eq] at h
-  rw [List.length_erase_of_mem h]
-  have := List.length_pos_of_mem h
-  omega
+the device (under that prefix).  A used name is erased (names for different `n` differ), so
+`fuel = dev.length + 1` rounds suffice. -/
+def firstFree (base : Name) : Nat → List Name → Nat → Nat
+  | 0, _, n => n
+  | fuel + 1, dev, n =>
+    if dev.contains (drcName base n) then firstFree base fuel (dev.erase (drcName base n)) (n + 1) else n
 
-def genName (base : Name) (dev : List Name) : Name := base ++ "-DRC-" ++ toString (firstFree base dev 0)
+def genName (base : Name) (dev : List Name) : Name := drcName base (firstFree base (dev.length + 1) dev 0)
 
 /-! ## `diffUnordered` -/
 
@@ -496,8 +502,11 @@ def diffBinds (e : Env) (st : St) (al : List Nat) (bl : List Bind) : St :=
 
 /-! ## Anchors: routes -/
 
-def sortRoutes (l : List Route) : List Route :=
-  l.mergeSort fun x y => x.sortKey < y.sortKey || (x.sortKey == y.sortKey && decide (x.text ≤ y.text))
+def routeLe (x y : Route) : Bool := x.sortKey < y.sortKey || (x.sortKey == y.sortKey && decide (x.text ≤ y.text))
+def insertR (x : Route) : List Route → List Route
+  | [] => [x]
+  | y :: ys => if routeLe x y then x :: y :: ys else y :: insertR x ys
+def sortRoutes (l : List Route) : List Route := l.foldr insertR []
 
 /-- `diffCmds` + `diffRoutes` for the (sorted) route lists. -/
 def diffRoutes (st : St) (al bl : List Route) : St :=
@@ -586,8 +595,10 @@ def duRounds (e : Env) : Nat → St → Pending → St
     let (st, p) := duRound e st p
     duRounds e n st p
 
-/-- `deleteUnused`; `managed`: indices of the access-group commands left in the lookup table. -/
-def deleteUnused (e : Env) (st : St) (managed : List Nat) : St :=
+/-- First part of `deleteUnused`: what is in `toDelete` after the `stillReferenced` filter; the flag says
+whether that filter removed something.  `managed`: indices of the access-group commands left in the
+lookup table. -/
+def duPending (e : Env) (st : St) (managed : List Nat) : Pending × Bool :=
   let aclNames := e.a.acls.map (·.1)
   let grpNames := e.a.groups.map (·.1)
   -- candidates
@@ -601,12 +612,17 @@ def deleteUnused (e : Env) (st : St) (managed : List Nat) : St :=
     !st.aNeeded.contains n && ((!st.aToDel.contains n && !isTagged n) || stillA.contains n)
   -- `follow` descends from a protected ACL into its groups whatever the ACL's own marks are
   let stillG := (untouchedA.flatMap fun n => (e.aLines n).flatMap (·.refs)).filter fun g => !st.gNeeded.contains g
-  let st := if (delA.any stillA.contains) || (delG.any stillG.contains) then st.hit "du:still-referenced" else st
-  let p : Pending := { binds := delB, acls := sortS (delA.filter fun n => !stillA.contains n),
-                       grps := sortS (delG.filter fun n => !stillG.contains n) }
+  ({ binds := delB, acls := sortS (delA.filter fun n => !stillA.contains n),
+     grps := sortS (delG.filter fun n => !stillG.contains n) },
+   (delA.any stillA.contains) || (delG.any stillG.contains))
+
+/-- `deleteUnused`. -/
+def deleteUnused (e : Env) (st : St) (managed : List Nat) : St :=
+  let (p, sr) := duPending e st managed
+  let st := if sr then st.hit "du:still-referenced" else st
   if p.isEmpty then st else
   let st := if st.mode != "" then (st.emit .exit).hit "du:exit" else st
-  duRounds e (aclNames.length + grpNames.length + 2) st p
+  duRounds e (e.a.acls.length + e.a.groups.length + 2) st p
 
 /-! ## `diffConfig` -/
 
